@@ -126,9 +126,17 @@ func runC05(res *lib.Result, tier string, seed int64, args []string) error {
 		if pi < 2 {
 			res.Sample(map[string]interface{}{"program": src, "occurrences": len(occs)})
 		}
+		// explicit declarations named self (a local, a parameter, a loop variable): occurrences bound to them are ordinary
+		// occurrences; only the IMPLICIT parameter of a colon method is resolved to the method's table (documented)
+		explicitSelf := map[string]bool{}
 		for _, o := range occs {
-			if o.name == "self" {
-				continue // the implicit parameter: the server resolves it to the table the method belongs to (documented)
+			if o.kind == "D" && o.name == "self" {
+				explicitSelf[occLoc(o)] = true
+			}
+		}
+		for _, o := range occs {
+			if o.name == "self" && !explicitSelf[occLoc(o)] && !explicitSelf[o.s] {
+				continue // the implicit parameter
 			}
 			for end := 0; end < 2; end++ {
 				col, m := o.sc, o.ms
@@ -148,6 +156,14 @@ func runC05(res *lib.Result, tier string, seed int64, args []string) error {
 				}
 				res.Count(fmt.Sprintf("%d/%d:%d", pi, o.sl, col), o.s != "G")
 				res.Dist("occ." + o.kind)
+				if o.name == "self" {
+					// an explicitly declared self
+					if impl != o.s {
+						res.HitKnown("C05-K3", "inside a colon method a declaration named self (local self, a parameter self of an inner function, a loop variable self) is ignored: every self is resolved to the table the method belongs to", fmt.Sprintf("definition answers %s but Lua scoping binds the occurrence to %s\n%s", impl, o.s, caseText))
+						res.Dist("hit.C05-K3")
+					}
+					continue
+				}
 				// global write sites of this name (targets of assignments / function statements bound to no local)
 				isGlobalSite := func(loc string) bool {
 					for _, w := range occs {
